@@ -39,19 +39,20 @@ type site struct {
 }
 
 type report struct {
-	Module        string   `json:"module"`
-	Sites         []site   `json:"sites"`
-	Yields        int      `json:"yields"`
-	MapRanges     int      `json:"map_ranges"`
-	HotSites      int      `json:"hot_sites"`
-	GoStmts       []string `json:"go_stmts"`
-	ChanOps       []string `json:"chan_ops"` // select / range over channel: not owned by the simulator
-	ChanRewritten int      `json:"chan_rewritten"`
-	GoRewritten   int      `json:"go_rewritten"`
-	ReflectMaps   []string `json:"reflect_map_iter"`
-	Shimmed       []string `json:"shimmed_imports"`
-	Unshimmed     []string `json:"unshimmed_imports"` // nondeterminism sources with no seam
-	Packages      []string `json:"packages"`
+	Module          string   `json:"module"`
+	Sites           []site   `json:"sites"`
+	Yields          int      `json:"yields"`
+	MapRanges       int      `json:"map_ranges"`
+	HotSites        int      `json:"hot_sites"`
+	GoStmts         []string `json:"go_stmts"`
+	ChanOps         []string `json:"chan_ops"` // select / range over channel: not owned by the simulator
+	ChanRewritten   int      `json:"chan_rewritten"`
+	GoRewritten     int      `json:"go_rewritten"`
+	SelectRewritten int      `json:"select_rewritten"`
+	ReflectMaps     []string `json:"reflect_map_iter"`
+	Shimmed         []string `json:"shimmed_imports"`
+	Unshimmed       []string `json:"unshimmed_imports"` // nondeterminism sources with no seam
+	Packages        []string `json:"packages"`
 }
 
 type splice struct {
@@ -284,6 +285,96 @@ func main() {
 				}
 				return true
 			})
+			// blocking select statements: which unlabeled `continue` statements in
+			// their clause bodies target a loop outside the select, and what that
+			// loop's label is (one is added if it has none)
+			type selInfo struct {
+				conts     []*ast.BranchStmt
+				outer     ast.Stmt // enclosing loop, nil if none
+				outerName string
+			}
+			selects := map[*ast.SelectStmt]*selInfo{}
+			loopLabel := map[ast.Stmt]string{} // loops that need a label (value: name)
+			{
+				var stack []ast.Node
+				labelOf := map[ast.Stmt]string{}
+				ast.Inspect(f, func(n ast.Node) bool {
+					if n == nil {
+						stack = stack[:len(stack)-1]
+						return true
+					}
+					if ls, ok := n.(*ast.LabeledStmt); ok {
+						labelOf[ls.Stmt] = ls.Label.Name
+					}
+					if sel, ok := n.(*ast.SelectStmt); ok {
+						blocking := true
+						for _, c := range sel.Body.List {
+							if cc, ok := c.(*ast.CommClause); ok && cc.Comm == nil {
+								blocking = false
+							}
+						}
+						if blocking {
+							info := &selInfo{}
+							for i := len(stack) - 1; i >= 0; i-- {
+								if _, ok := stack[i].(*ast.FuncLit); ok {
+									break
+								}
+								if _, ok := stack[i].(*ast.FuncDecl); ok {
+									break
+								}
+								switch l := stack[i].(type) {
+								case *ast.ForStmt:
+									info.outer = l
+								case *ast.RangeStmt:
+									info.outer = l
+								}
+								if info.outer != nil {
+									break
+								}
+							}
+							selects[sel] = info
+						}
+					}
+					if br, ok := n.(*ast.BranchStmt); ok && br.Tok == token.CONTINUE && br.Label == nil {
+						// nearest enclosing loop / select / func literal
+						for i := len(stack) - 1; i >= 0; i-- {
+							stop := false
+							switch x := stack[i].(type) {
+							case *ast.ForStmt, *ast.RangeStmt, *ast.FuncLit, *ast.FuncDecl:
+								stop = true
+							case *ast.SelectStmt:
+								if info := selects[x]; info != nil {
+									info.conts = append(info.conts, br)
+								}
+								stop = true
+							}
+							if stop {
+								break
+							}
+						}
+					}
+					stack = append(stack, n)
+					return true
+				})
+				k := 0
+				for _, info := range selects {
+					if info.outer == nil || len(info.conts) == 0 {
+						continue
+					}
+					if name, ok := labelOf[info.outer]; ok {
+						info.outerName = name
+						continue
+					}
+					if name, ok := loopLabel[info.outer]; ok {
+						info.outerName = name
+						continue
+					}
+					k++
+					name := "jmloop" + strconv.Itoa(int(off(info.outer.Pos())))
+					loopLabel[info.outer] = name
+					info.outerName = name
+				}
+			}
 			var visit func(n ast.Node) bool
 			visit = func(n ast.Node) bool {
 				switch n := n.(type) {
@@ -303,8 +394,14 @@ func main() {
 					afterBrace(n.Body, "lit")
 				case *ast.ForStmt:
 					afterBrace(n.Body, "loop")
+					if name, ok := loopLabel[n]; ok {
+						sp = append(sp, splice{off: off(n.For), text: name + ": "})
+					}
 				case *ast.RangeStmt:
 					afterBrace(n.Body, "loop")
+					if name, ok := loopLabel[n]; ok {
+						sp = append(sp, splice{off: off(n.For), text: name + ": "})
+					}
 					if tv, ok := info.Types[n.X]; ok && tv.Type != nil {
 						if isMap(tv.Type) {
 							id := nextSite
@@ -316,7 +413,11 @@ func main() {
 							used = true
 						}
 						if _, ok := tv.Type.Underlying().(*types.Chan); ok {
-							rep.ChanOps = append(rep.ChanOps, fmt.Sprintf("%s:%d range over channel", relFile, line(n.Pos())))
+							// for v := range ch  ->  for v := range simrt.RecvSeq(ch)
+							rep.ChanRewritten++
+							sp = append(sp, splice{off: off(n.X.Pos()), text: "simrt.RecvSeq("})
+							sp = append(sp, splice{off: off(n.X.End()), text: ")"})
+							used = true
 						}
 					}
 				case *ast.SwitchStmt:
@@ -325,6 +426,21 @@ func main() {
 					noStmt[n.Body.Lbrace] = true
 				case *ast.SelectStmt:
 					noStmt[n.Body.Lbrace] = true
+					if info := selects[n]; info != nil {
+						// blocking select -> polling loop that hands the processor over:
+						//   L: for { select { ...cases...; default: simrt.Block(); continue L }; break L }
+						rep.SelectRewritten++
+						lbl := "jmsel" + strconv.Itoa(off(n.Select))
+						sp = append(sp, splice{off: off(n.Select), text: lbl + ": for { "})
+						sp = append(sp, splice{off: off(n.Body.Rbrace), text: "; default: simrt.Block(); continue " + lbl + "; "})
+						sp = append(sp, splice{off: off(n.Body.Rbrace) + 1, text: "; break " + lbl + " }"})
+						for _, br := range info.conts {
+							if info.outerName != "" {
+								sp = append(sp, splice{off: off(br.End()), text: " " + info.outerName})
+							}
+						}
+						used = true
+					}
 				case *ast.BlockStmt:
 					if noStmt[n.Lbrace] {
 						return true
@@ -335,7 +451,6 @@ func main() {
 					stmtList(n.Body, false)
 				case *ast.CommClause:
 					stmtList(n.Body, false)
-					rep.ChanOps = append(rep.ChanOps, fmt.Sprintf("%s:%d select", relFile, line(n.Pos())))
 				case *ast.GoStmt:
 					// go f(a, b)  ->  simrt.Go2(f, a, b): the new goroutine becomes a
 					// simulated task; arguments are still evaluated at the go statement
